@@ -94,6 +94,8 @@ class WsConnA:
                                                     False):
                 self.server_closed = True
                 raise ClientGone('peer gone')
+            if getattr(self, 'accept_delay', 0):
+                await asyncio.sleep(self.accept_delay)
             self.accepted = True
             self.accept_clk = self.sim.tick()
             if self.on_accept is not None:
